@@ -7,6 +7,7 @@ package node
 // StateDBWrapper through the same call sequence as core.ApplyMessage.
 
 import (
+	ethcrypto "github.com/ethereum/go-ethereum/crypto"
 	"github.com/holiman/uint256"
 	"github.com/rigochain/rigo-go/ctrlers/vm/evm"
 	ctrlertypes "github.com/rigochain/rigo-go/ctrlers/types"
@@ -20,6 +21,7 @@ import (
 //   id 5: call third with value 0, call third with value 1, STOP
 //   id 6: REVERT when called without value, STOP otherwise
 //   id 7: storage cell - without call data RETURN slot 0, otherwise slot 0 := calldata[0:32]
+//   id 8: factory - CREATE a child with empty code, RETURN its address
 func zzRuntime(id int, third []byte) []byte {
 	rt := []byte{0x60, byte(id), 0x50}
 	if id == 0 {
@@ -34,6 +36,11 @@ func zzRuntime(id int, third []byte) []byte {
 		//               | JUMPDEST PUSH1 0 CALLDATALOAD PUSH1 0 SSTORE STOP
 		return append(rt, 0x36, 0x60, 0x12, 0x57, 0x60, 0x00, 0x54, 0x60, 0x00, 0x52, 0x60, 0x20, 0x60, 0x00, 0xF3,
 			0x5B, 0x60, 0x00, 0x35, 0x60, 0x00, 0x55, 0x00)
+	}
+	if id == 8 {
+		// factory: PUSH1 8 POP | PUSH1 1 PUSH1 0 PUSH1 0 CREATE | PUSH1 0 MSTORE | PUSH1 32 PUSH1 0 RETURN
+		// (the child's init code is one byte of zeroed memory = STOP: empty runtime code)
+		return append(rt, 0x60, 0x01, 0x60, 0x00, 0x60, 0x00, 0xF0, 0x60, 0x00, 0x52, 0x60, 0x20, 0x60, 0x00, 0xF3)
 	}
 	firstValue := byte(0x01)
 	if id == 5 {
@@ -348,4 +355,46 @@ func ZZ_C17_E5() {
 	zzNoPanic("block after the read-only calls", func() { n.emptyBlock(0) })
 	zzverif.Event("E5", firstBlock, cell)
 	zzverif.Reach("E5 end")
+}
+
+// ZZ_C17_E6: creates.  A factory contract is called in two or three separate
+// transactions (same or different blocks); every call creates a new child at
+// CreateAddress(factory, factory's nonce), and the native nonces of factory and
+// children equal the EVM's.
+func ZZ_C17_E6() {
+	govp := ctrlertypes.Test1GovParams()
+	n := zzNewGenesisBanded(3, 1, govp).start()
+	n.emptyBlock(0)
+	n.emptyBlock(0)
+	n.begin(0, nil, nil)
+	f := n.deploy(1, zzInitCode(8, nil))
+	n.end()
+	zzverif.Assert(n.nonceOf(f) == 1, "E6 a deployed contract starts with nonce 1")
+	ncalls := 2 + zzverif.Choose("calls", 2)
+	sameBlock := zzverif.Choose("calls.in.one.block", 2) == 1
+	n.begin(0, nil, nil)
+	for k := 1; k <= ncalls; k++ {
+		if k > 1 && !sameBlock {
+			n.end()
+			n.begin(0, nil, nil)
+		}
+		sender := 1 + k%2
+		t := &zzTx{from: sender, amount: uint256.NewInt(0), gas: 1000000, gasPrice: govp.GasPrice(), nonce: n.nonceOf(zzAddr(sender)), signer: sender,
+			typ: ctrlertypes.TRX_CONTRACT, payload: &ctrlertypes.TrxPayloadContract{Data: []byte{0x01}}}
+		r := n.app.DeliverTx(abcitypes.RequestDeliverTx{Tx: n.encodeTo(t, f)})
+		zzverif.Assert(r.Code == 0, "E6 a factory call succeeds")
+		var f20 [20]byte
+		copy(f20[:], f)
+		child := ethcrypto.CreateAddress(f20, uint64(k))
+		want := make([]byte, 32)
+		copy(want[12:], child[:])
+		zzverif.Assert(len(r.Data) == 32 && zzverif.SameBytes(r.Data, want), "E6 the k-th call returns the address derived from the factory's nonce k")
+		zzverif.Assert(n.nonceOf(f) == uint64(1+k), "E6 the factory's native nonce = the EVM's (1 + number of creates)")
+		zzverif.Assert(n.nonceOf(types.Address(child[:])) == 1, "E6 the created contract's native nonce = the EVM's (1)")
+	}
+	n.end()
+	zzverif.Assert(n.nonceOf(f) == uint64(1+ncalls), "E6 committed: the factory's native nonce = 1 + number of creates")
+	zzNoPanic("block after the creates", func() { n.emptyBlock(0) })
+	zzverif.Event("E6", ncalls, sameBlock)
+	zzverif.Reach("E6 end")
 }
